@@ -82,6 +82,9 @@ def _val(rng):
     r = rng.random()
     if r < 0.35:
         return rng.choice([0, 1, 2, 7, 10, 100, -1, 65535, 1500000000])
+    if r < 0.38:
+        # floats JSON spells with an exponent, characters outside the BMP (surrogate pairs in JSON)
+        return rng.choice([1e+16, 1e-05, 2.5, 'go\U0001F680'])
     if r < 0.9:
         return rng.choice(_STRS)
     return None
@@ -229,6 +232,8 @@ def _rv(v):
         return 'o:bool'
     if isinstance(v, int):
         return 'i:%d' % v
+    if isinstance(v, float):
+        return 's:\u27e8float\u27e9%r' % v          # an atom of its own for the model: a float is not its spelling
     if isinstance(v, str):
         return 's:' + v
     return 'o:' + type(v).__name__
